@@ -62,11 +62,13 @@ func vh_symCopyTree(root string, maxb int, sel int) {
 		m.MkSymlink(root+"/t/l", "f", id("uid"), id("gid"), vh_chooseMtime("mtime"))
 	}
 	if sel&8 != 0 {
-		switch v.Choose("class-p", 3) {
+		switch v.Choose("class-p", 4) {
 		case 1:
 			m.MkNode(root+"/t/p", m.KFifo, perm(), 0, id("uid"), id("gid"), vh_chooseMtime("mtime"))
 		case 2:
-			m.MkNode(root+"/t/p", m.KChar, perm(), 0x0103, id("uid"), id("gid"), vh_chooseMtime("mtime"))
+			m.MkNode(root+"/t/p", m.KChar, perm(), 0x10012c, id("uid"), id("gid"), vh_chooseMtime("mtime")) // char device 1:300
+		case 3:
+			m.MkNode(root+"/t/p", m.KBlock, perm(), 0x0702, id("uid"), id("gid"), vh_chooseMtime("mtime")) // block device 7:2
 		}
 	}
 	m.SetMtime(root+"/t", vh_chooseMtime("mtime-t"))
